@@ -357,6 +357,12 @@ Definition tgt_squeeze (shs : shapes) (sq : list bool) (aggressive : bool) : sha
 
 (* ---- GeometryRemover / DomainChangerAndReshaper: x.cast_domain / x.val.reshape(tgt.shape) ---- *)
 Definition spec_reshape (n : nat) : blk := bident n.
+(* GeometryRemover(domain, space): "The index of the subdomain on which the operator should act. If
+   None, it acts on all spaces."   if space is not None: tgt[space] = UnstructuredDomain(...)
+   else: tgt = [UnstructuredDomain(dom.shape) for dom in self._domain]
+   which of the nsp sub-domains are unstructured in the target *)
+Definition geo_unstructured (nsp : nat) (space : option nat) : list bool :=
+  map (fun i => match space with None => true | Some k => Nat.eqb i k end) (seq 0 nsp).
 
 (* ---- ExtractAtIndices(domain, indices, space) ------------------------------------------------------
    "indices=((0,1,1,0), (3,4,1,5)) will extract the pixels (0,3), (1,4), (1,1) and (0,5)"
